@@ -46,10 +46,30 @@ Round 4 (input shapes, aliasing, override gaps, conventions, numeric edges, rare
     magnitude 1e-12 .. 1e22 and shortest-repr edge cases.
   * the branches of the anchored functions are listed at the head of the round-4 section; each stratum that reaches
     one is counted as `branch:...` in the evidence.
+
+Round 5 (class: a lookup / memo / interning / de-duplication KEYED BY A VALUE - dict, set, `in`, `==`, `index` - is
+valid only when equal keys have equal text; Python's equality and hash conflate 0.0 with -0.0 and 1 with 1.0 with
+True, which print differently and are different cells of a file):
+  * generator stratum `eqv` (`_eqv_cells`, every non-id synthetic file): each float column holds 0.0 and -0.0 in
+    both orders of first appearance, as neighbours and far apart, on the first and the last row (the two ends of
+    the rotation); the int 0 cells of the same rows give three spellings of zero in one row.  `_new_values`
+    (objhist `set_values`): signed zeros in float columns (tag % 3 == 2), the int next to the equal float
+    (tag % 6 == 1), at the rows every export check samples.  Ground-temperature tokens '-0.00' / '-0.0' / '-0'.
+  * oracle: every comparison of values the statement calls "identical" is by value, type and sign of zero
+    (`_same_seq` / `_first_unlike` / `_xnorm`): read-write-read, exports leave the object unchanged, every
+    constructor, to_dict -> from_dict, the established state of a history, header data; the cell at its
+    date-time is the value of the FILE's token with its sign; rows are reproduced FIELD FOR FIELD (a canonical
+    cell is written back as it stands also in a row with non-canonical neighbours); the MOS check reads every
+    line; a re-read history object is compared with the values passed through text and field type.
+  * Lean: C01_write_cellwise / C01_write_cell_own_text (each written token is str of that cell's own value),
+    C01_memo_write_sound (a memoised column equals the column iff-direction: key finer than the text),
+    C01_equal_values_different_text_counterexample, C01_memo_by_equality_counterexample, C01_signed_zero_roundtrip.
 """
 import atexit
+from array import array
 import copy
 import json
+import math
 import os
 import random
 import shutil
@@ -89,7 +109,10 @@ RULE = ('correspondence: full-size EPW texts (shipped files; synthetic files who
         'tuple / generator / iterator / map / dict keys, unsorted, repeated, around 29 Feb; paths without extension; '
         'setter arguments as text and as dictionaries in reverse order; weeks over the year end and leap-calendar '
         'weeks (op leapweek); year column values incl. leap years on 8760-row files; each reached branch of the '
-        'anchored functions counted as branch:* in the evidence')
+        'anchored functions counted as branch:* in the evidence.  Round 5: every non-id synthetic file holds, in each float '
+        'column, 0.0 and -0.0 (equal values of different text) in both orders, adjacent, far apart and on the first / last '
+        'row; set_values histories hold signed zeros and int next to the equal float; all "identical" comparisons are by '
+        'value, type and sign of zero; canonical cells are checked field for field')
 TRUSTED_BASE = [
     'translator tools/extract/epw_fields.py: copies EPWFields._fields (value type, unit, missing) and derives '
     'point_in_time of each field\'s data type from datatype/*.py (compared with the live classes by op flags)',
@@ -318,7 +341,7 @@ def _rand_header_opts(rng, leap_tok=None, findings=False):
             v = ['%s%d.%02d%d' % (rng.choice(['', '-']), rng.randrange(0, 30), rng.randrange(100),
                                   rng.choice([1, 2, 3, 4, 6, 7, 8, 9])) for _ in range(12)]    # never a tie at the 3rd decimal
         else:
-            v = [rng.choice(['0', '0.00', '0.0', '10.00', '-0.50', '20']) if rng.random() < 0.25 else
+            v = [rng.choice(['0', '0.00', '0.0', '10.00', '-0.50', '20', '-0.00', '-0.0', '-0']) if rng.random() < 0.25 else
                  rng.choice(['%.2f', '%.1f', '%.0f']) % (rng.randrange(-2000, 3000) / 100.0) for _ in range(12)]
         gr.append([dp, rng.choice(['', '1.2', '0']), rng.choice(['', '1600', '0']), rng.choice(['', '0.85', '0.0']), v])
     o['ground'] = gr
@@ -354,6 +377,38 @@ def _cell(mode, vt, r, k, ncols, rng):
                        '0.1', '2.675', '1e16', '123456789012345678', '0.30000000000000004'])
 
 
+FLOAT_COLS = [k for k in range(35) if VT[k] == 'float']
+
+
+def _eqv_cells(seed, nrows, ncols):
+    """Round 5 stratum `eqv`: {(row, field): token} that puts values which COMPARE EQUAL BUT PRINT DIFFERENTLY
+    into one column (0.0 and -0.0; the only such pair a canonical file can hold), in both orders of first
+    appearance, adjacent and far apart, on the first and the last row (the two ends of the rotation), and - with
+    the int 0 cells of the same row - equal values of three spellings ('0', '0.0', '-0.0') in one row.
+    Every token is canonical, so each one must be written back as it stands."""
+    rng = random.Random(seed)
+    cells = {}
+    if nrows < 16:
+        return cells
+    shared = rng.randrange(2, nrows - 4)
+    for j, k in enumerate([c for c in FLOAT_COLS if c < ncols]):
+        a, b = ('0.0', '-0.0') if (j + seed) % 2 == 0 else ('-0.0', '0.0')
+        r0 = shared if j < 2 else rng.randrange(2, nrows - 4)
+        for d, t in enumerate((a, b, a)):               # neighbours: ... a, b, a ...
+            cells[(r0 + d, k)] = t
+        far = rng.randrange(2, nrows - 4)
+        if (far, k) not in cells:
+            cells[(far, k)] = b
+        edge = (j + seed // 2) % 4                          # what the ends of the file hold
+        if edge == 0:
+            cells[(0, k)] = '-0.0'                         # the negative zero is the first value of the column ...
+        elif edge == 1:
+            cells[(nrows - 1, k)] = '-0.0'                 # ... or the last (first after the rotation on import)
+        elif edge == 2:
+            cells[(0, k)], cells[(nrows - 1, k)] = '0.0', '-0.0'
+    return cells
+
+
 def synth_text(spec):
     """Full EPW text of a spec dict (deterministic)."""
     rng = random.Random(spec.get('seed', 0))
@@ -369,6 +424,10 @@ def synth_text(spec):
     if mode != 'ids':       # a pool of rows keeps generation fast; rows stay position-dependent through column 0..4
         pool = [[_cell(mode, VT[k] if k < 35 else 'int', 0, k, ncols, rng) for k in range(ncols)] for _ in range(97)]
     body = []
+    eqv = _eqv_cells(spec['eqv'], nrows, ncols) if spec.get('eqv') is not None and mode != 'ids' else {}
+    eqv_rows = {}
+    for (r, k), t in eqv.items():
+        eqv_rows.setdefault(r, []).append((k, t))
     for r in range(nrows):
         if r == blank:
             body.append('')
@@ -381,6 +440,8 @@ def synth_text(spec):
             row[3] = str(r % 24 + 1)
             if ncols > 8:
                 row[8] = str(r)             # a position-dependent int cell
+            for k, t in eqv_rows.get(r, ()):
+                row[k] = t
         if spec.get('short_row') == r:
             row = row[:spec.get('short_len', 20)]
         if spec.get('bad_cell') == r:
@@ -578,6 +639,8 @@ def _body_branches(spec, nlines):
         out.append('body:blank_line')
     if spec.get('mode') == 'noncanon':
         out.append('body:int_cell_through_float')
+    if spec.get('eqv') is not None and spec.get('mode', 'ids') != 'ids':
+        out.append('body:column_with_equal_values_of_different_text')
     if 'bad_cell' in spec:
         out.append('body:cell_unparsable_' + VT[spec.get('bad_col', 6)])
     if 'short_row' in spec:
@@ -787,6 +850,8 @@ def _synth_specs(ctx, rng):
         ]
     for s in specs:
         s['header'] = rand_header_opts(random.Random(s['seed']), leap_tok=s['leap'])
+        if s['mode'] != 'ids':
+            s['eqv'] = rng.randrange(1000)      # round 5: equal values of different text inside one column
     return specs
 
 
@@ -974,6 +1039,48 @@ def _close(a, b, tol=1e-9):
     return a == b or abs(a - b) <= tol * max(1.0, abs(a), abs(b))
 
 
+def _same_seq(x, y):
+    """Two value sequences are the same for a user who looks at the values: equal, of the same types, zeros of the
+    same sign.  (Python's `==` / hash conflate 0.0 with -0.0 and 1 with 1.0 and True; they are different cells
+    of a file and print differently.)"""
+    return _first_unlike(x, y) is None
+
+
+def _first_unlike(x, y):
+    """Index of the first position where two value sequences differ in value, type or sign of zero (-1: lengths)."""
+    x, y = tuple(x), tuple(y)
+    if len(x) != len(y):
+        return -1
+    if x != y:
+        return next(i for i, (a, b) in enumerate(zip(x, y)) if a != b)
+    tx, ty = list(map(type, x)), list(map(type, y))
+    if tx != ty:
+        return next(i for i in range(len(x)) if tx[i] is not ty[i])
+    if 0 in x:
+        if set(tx) == {float} and array('d', x).tobytes() == array('d', y).tobytes():
+            return None              # (equal floats: the same bits unless a zero changed its sign)
+        for i, a in enumerate(x):
+            if a == 0 and tx[i] is float and math.copysign(1.0, a) != math.copysign(1.0, y[i]):
+                return i
+    return None
+
+
+def _same_val(a, b):
+    return _first_unlike((a,), (b,)) is None
+
+
+def _xnorm(v):
+    """Header data in a form whose `==` tells apart what prints differently (floats by type and repr; dictionaries
+    without their order)."""
+    if isinstance(v, float):
+        return ('float', repr(v))
+    if isinstance(v, dict):
+        return ('dict', frozenset((_xnorm(k), _xnorm(x)) for k, x in v.items()))
+    if isinstance(v, (tuple, list)):
+        return ('seq', tuple(_xnorm(x) for x in v))
+    return (type(v).__name__, v)
+
+
 def _snap(e):
     """Public state of an EPW (loads the data first: the lazy header of a file without leap field is C18's)."""
     e.import_data_by_field(0)
@@ -989,14 +1096,14 @@ def _snap(e):
     }
 
 
-def _snap_diff(a, b, tol=0.0):
+def _snap_diff(a, b, tol=0.0, exact=True):
     for key in ('location', 'header', 'is_ip', 'leap', 'units'):
         if a[key] != b[key]:
             return key
     if len(a['values']) != len(b['values']):
         return 'field_count'
     for k, (x, y) in enumerate(zip(a['values'], b['values'])):
-        if x != y:
+        if not (_same_seq(x, y) if exact else x == y):
             if tol and len(x) == len(y) and all(_close(p, q, tol) for p, q in zip(x, y)):
                 continue
             return 'values[%d]' % k
@@ -1061,7 +1168,7 @@ def _header_vs_file(hd, hl, design=True):
         got = hd[key]
         if key.endswith('_dict'):
             got = list(got.values())
-        if got != w:
+        if _xnorm(got) != _xnorm(w):
             return key, w
     return None
 
@@ -1075,18 +1182,22 @@ def _stamp_dt(month, day, hour, leap):
     return t.month, t.day, t.hour, t.minute
 
 
+def _canonical_cell(k, t):
+    """True when the cell of field k is spelled as Python prints the parsed value."""
+    vt = VT[k]
+    try:
+        if vt == 'int' and str(int(t)) != t:
+            return False
+        if vt == 'float' and repr(float(t)) != t:
+            return False
+    except ValueError:
+        return False
+    return True
+
+
 def _canonical_tokens(tokens):
     """True when every cell of a row is spelled as Python prints the parsed value."""
-    for k, t in enumerate(tokens[:35]):
-        vt = VT[k]
-        try:
-            if vt == 'int' and str(int(t)) != t:
-                return False
-            if vt == 'float' and repr(float(t)) != t:
-                return False
-        except ValueError:
-            return False
-    return True
+    return all(_canonical_cell(k, t) for k, t in enumerate(tokens[:35]))
 
 
 def check_case(op, inp):
@@ -1122,8 +1233,11 @@ def check_case(op, inp):
         d = _snap_diff(s1, s2)
         if d:
             k = int(d[7:-1]) if d.startswith('values[') else -1
+            i = (_first_unlike(s1['values'][k], s2['values'][k]) or 0) if k >= 0 else 0
             return {'required': 'read(write(read(t))) equals read(t): ' + d,
-                    'observed': 'differs' if k < 0 else 'first values %r vs %r' % (s1['values'][k][:3], s2['values'][k][:3]),
+                    'observed': 'differs' if k < 0 else 'index %d: %r read, %r read back (written line %d: %s)' % (
+                        i, s1['values'][k][max(i, 0):i + 3], s2['values'][k][max(i, 0):i + 3], 8 + max(i - 1, 0),
+                        _short(t1.split('\n')[8 + max(i - 1, 0)])),
                     'sig': dict(sig, what='reread_differs', part=d.split('[')[0])}
         for k in range(nf):
             c1, c2 = e1.import_data_by_field(k), e2.import_data_by_field(k)
@@ -1145,7 +1259,20 @@ def check_case(op, inp):
                     'sig': dict(sig, what='row_count')}
         for r in (list(range(0, n, 1)) if inp.get('all_rows', True) else range(0, n, 37)):
             st = src[r].split(',')
-            if _canonical_tokens(st) and st[:35] != out[r].split(','):
+            ot = out[r].split(',')
+            if st[:35] == ot:
+                continue
+            # field for field: a cell spelled as Python prints its value is written back as it stands, whatever
+            # the spelling of its neighbours (and whatever equal-valued cells the column holds elsewhere)
+            for k, tkn in enumerate(st[:min(35, nf)]):     # (a file whose first data line is blank keeps one field)
+                if (k >= len(ot) or ot[k] != tkn) and _canonical_cell(k, tkn):
+                    if _canonical_tokens(st):
+                        return {'required': 'row %d reproduced: %s' % (r, ','.join(st[:35])[:150]),
+                                'observed': out[r][:150], 'sig': dict(sig, what='row_not_reproduced')}
+                    return {'required': 'row %d field %d reproduced: %s' % (r, k, tkn),
+                            'observed': ot[k] if k < len(ot) else 'absent',
+                            'sig': dict(sig, what='row_not_reproduced', cell=True)}
+            if len(ot) != min(35, nf) and _canonical_tokens(st):
                 return {'required': 'row %d reproduced: %s' % (r, ','.join(st[:35])[:150]),
                         'observed': out[r][:150], 'sig': dict(sig, what='row_not_reproduced')}
         # every cell sits at the date-time its row stamp assigns to it
@@ -1180,7 +1307,8 @@ def check_case(op, inp):
                 want = cv(rows[r][k])
                 i = pit_index[r] if flag else r
                 got = vals[i]
-                if got != want or type(got) is not type(want):
+                if got != want or type(got) is not type(want) or (
+                        got == 0 and type(got) is float and math.copysign(1.0, got) != math.copysign(1.0, want)):
                     return {'required': 'cell of row %d field %d (%r) at index %d' % (r, k, rows[r][k], i),
                             'observed': repr(got), 'sig': dict(sig, what='cell_position', pit=flag)}
         # the text fields of the header are the file's
@@ -1207,7 +1335,7 @@ def check_case(op, inp):
         # header data (dictionaries) survive as well
         hd2 = _header_data(e2)
         for key in hd1:
-            if hd1[key] != hd2[key]:
+            if _xnorm(hd1[key]) != _xnorm(hd2[key]):
                 s = dict(sig, what='header_data', part=key)
                 if key == 'ground_temps':
                     s['more_than_2_decimals'] = any(round(v, 2) != v for g in hd1[key].values() for v in g[3])
@@ -1264,7 +1392,7 @@ def check_case(op, inp):
         finally:
             os.remove(p2)
         for key in d1:
-            if d1[key] != d2[key]:
+            if _xnorm(d1[key]) != _xnorm(d2[key]):
                 return {'required': 'header data %s identical after write + read: %s' % (key, _short(d1[key])),
                         'observed': _short(d2[key]) + ' | written line: ' + _short(h1[{'dst': 4, 'leap': 4, 'comments': 5, 'location': 0, 'ground_temps': 3}.get(key, 1 if key.endswith('dict') else 2)]),
                         'sig': dict(sig, what='header_data', part=key)}
@@ -1323,7 +1451,7 @@ def check_case(op, inp):
             ml = [l for l in f.read().split('\n') if l and not l.startswith('#') and not l.startswith('double')]
         if len(ml) != n:
             return {'required': '%d mos lines' % n, 'observed': len(ml), 'sig': dict(sig, what='mos_count')}
-        for i in (0, 1, 2, 24, n // 2, n - 1):
+        for i in range(n):           # every line: a cell is the text of the value at the same step, not of an equal one
             tk = ml[i].split('\t')
             if float(tk[0]) != 3600.0 * i:
                 return {'required': 'MOS time of line %d = %d s' % (i, 3600 * i), 'observed': tk[0],
@@ -1343,7 +1471,7 @@ def check_case(op, inp):
         if dd:
             return {'required': 'to_dict/from_dict carry the same numbers', 'observed': dd,
                     'sig': dict(sig, what='dict', part=dd.split('[')[0])}
-        if _header_data(e3) != _header_data(e):
+        if _xnorm(_header_data(e3)) != _xnorm(_header_data(e)):
             return {'required': 'to_dict/from_dict carry the header data', 'observed': 'differs',
                     'sig': dict(sig, what='dict', part='header_data')}
         return None
@@ -1371,8 +1499,10 @@ def check_case(op, inp):
         from ladybug.location import Location
         e.location = Location('Nowhere', 'ST', 'USA', 10.5, -20.25, -1.0, 5.0, '123456', 'TMY3')
         e2 = EPW.from_file_string(e.to_file_string())
-        if _snap_diff(_snap(e), _snap(e2)):
-            return {'required': 'missing-value file reads back', 'observed': _snap_diff(_snap(e), _snap(e2)),
+        # (from_missing_values fills float fields with the int missing codes of the field table: 9999 is read back as
+        # 9999.0 - the numbers are compared, not their types)
+        if _snap_diff(_snap(e), _snap(e2), exact=False):
+            return {'required': 'missing-value file reads back', 'observed': _snap_diff(_snap(e), _snap(e2), exact=False),
                     'sig': {'what': 'missing_roundtrip'}}
         return None
 
@@ -1506,7 +1636,7 @@ def _priv_diff(a, b, tol):
         if a[key] != b[key]:
             return key
     for k, (x, y) in enumerate(zip(a['values'], b['values'])):
-        if x != y:
+        if not _same_seq(x, y):
             if tol and len(x) == len(y) and all(_close(p, q, tol) for p, q in zip(x, y)):
                 continue
             return 'values[%d]' % k
@@ -1720,8 +1850,20 @@ def _hdr_diff(got, want):
 
 def _new_values(k, tag, n):
     if VT[k] == 'int':
-        return [(tag * 7 + i * 3) % 1000 for i in range(n)]
-    return [((tag * 13 + i * 7) % 4000) / 10.0 - 50.0 for i in range(n)]
+        vals = [(tag * 7 + i * 3) % 1000 for i in range(n)]
+    else:
+        vals = [((tag * 13 + i * 7) % 4000) / 10.0 - 50.0 for i in range(n)]
+    # round 5: values that compare equal but print differently inside one column (each is written, exported and
+    # handed back as itself): signed zeros in a float column (tag % 3 == 2), the int and the equal float (tag % 6 == 1)
+    if n > 40 and tag % 3 == 2 and VT[k] == 'float':
+        a, b = (0.0, -0.0) if tag % 2 else (-0.0, 0.0)
+        for i, v in ((0, b), (1, a), (2, b), (3, a), (13, a), (26, b), (n // 2, a), (n // 2 + 1, b), (n - 2, a), (n - 1, b)):
+            vals[i] = v
+    elif n > 40 and tag % 6 == 1:
+        a, b = (1, 1.0) if tag % 4 == 1 else (1.0, 1)
+        for i, v in ((0, a), (1, b), (2, a), (13, b), (26, a), (n // 2, b), (n - 2, b), (n - 1, a)):
+            vals[i] = v
+    return vals
 
 
 def _to_unit(c, vals, want, have):
@@ -1776,8 +1918,9 @@ class _Expect(object):
     def si_col(self, k):
         return self.si_vals[k] if k in self.si_vals else self.base['si']['values'][k]
 
-    def check_values(self, e, fields=None):
-        """Every field of the object against the established state (None | text)."""
+    def check_values(self, e, fields=None, reread=False):
+        """Every field of the object against the established state (None | text); reread: the object was read from
+        the text written for that state, so every value has passed through its text and the type of its field."""
         from ladybug.epw import EPWFields
         si_units, ip_units = self.base['si']['units'], self.base['ip']['units']
         if e.is_ip != self.ip:
@@ -1796,9 +1939,15 @@ class _Expect(object):
                 want = self.base['ip' if self.ip else 'si']['values'][k]
             if len(got) != len(want):
                 return 'field %d has %d values' % (k, len(got))
-            if tuple(got) != tuple(want):
+            if reread and k in self.si_vals and k < 35:
+                cv = {'int': lambda t: int(t) if _is_int(t) else int(round(float(t))), 'float': float, 'str': str}[VT[k]]
+                want = [cv(str(w)) for w in want]
+            if not _same_seq(got, want):
                 tol = self.tol() or (1e-9 if k in self.si_vals and self.ip else 0.0)
-                bad = [i for i, (p, q) in enumerate(zip(got, want)) if not (p == q or (tol and _close(p, q, tol)))]
+                if tol:
+                    bad = [i for i, (p, q) in enumerate(zip(got, want)) if not (p == q or _close(p, q, tol))]
+                else:
+                    bad = [i for i, (p, q) in enumerate(zip(got, want)) if p != q] or [_first_unlike(got, want)]
                 if bad:
                     i = bad[0]
                     return 'field %d index %d is %r, expected %r (%d values differ)' % (k, i, got[i], want[i], len(bad))
@@ -2191,7 +2340,7 @@ def _check_objhist(inp):
         dd = ex.check_text(text)
         if not dd and not ex.ever_ip:
             e2 = EPW.from_file_string(text)
-            dd = _hdr_diff(e2.header, ex.header()[0]) or ex.check_values(e2)
+            dd = _hdr_diff(e2.header, ex.header()[0]) or ex.check_values(e2, reread=True)
             if dd:
                 dd = 're-read object: ' + dd
         if dd:
@@ -2272,8 +2421,8 @@ def _rand_obj_op(rng, n, k_set):
 
 R3_SPECS = [{'leap': 'No', 'mode': 'ids', 'seed': 1},
             {'leap': 'Yes', 'mode': 'ids', 'seed': 2, 'header': None},
-            {'leap': 'No', 'mode': 'canon', 'seed': 3, 'header': None},
-            {'leap': 'Yes', 'mode': 'canon', 'seed': 4, 'header': None, 'year': '2016'}]     # exotic header text
+            {'leap': 'No', 'mode': 'canon', 'seed': 3, 'header': None, 'eqv': 3},
+            {'leap': 'Yes', 'mode': 'canon', 'seed': 4, 'header': None, 'year': '2016', 'eqv': 4}]     # exotic header text
 
 
 def _r3_spec(i):
@@ -2317,7 +2466,7 @@ R3_FIXED_HIST = [
     {'spec': 1, 'ctor': 'string', 'ops': [['dict', 'adopt'], ['set_loc', R3_LOCS[2]], ['dict', 'adopt'], ['write'],
                                           ['loc_attr', 'time_zone', 0], ['write'], ['set_comments', 1, '0'],
                                           ['set_design', 0, 'empty', 1], ['hdr'], ['write_path']], 'final': False},
-    {'spec': 2, 'ctor': 'path', 'ops': [['set_values', 6, 5], ['write'], ['set_values', 14, 6], ['wea'], ['mos'],
+    {'spec': 2, 'ctor': 'path', 'ops': [['set_values', 6, 5], ['write'], ['set_values', 14, 7], ['wea'], ['mos'],
                                         ['set_values_bad', 6, 1], ['write'], ['set_ground', 'ok', 3], ['hdr'],
                                         ['set_weeks', 0, 'ok', 7, 1], ['set_weeks', 1, 'bad', 1, 5], ['write']]},
     {'spec': 1, 'ctor': 'path', 'ops': [['set_design', 0, 'full', 1], ['set_design', 1, 'full', 2], ['hdr'],
@@ -2818,10 +2967,11 @@ def _full_view(e):
 
 def _view_diff(a, b, skip=()):
     for key in a:
-        if key in skip or a[key] == b[key]:
+        if key in skip or (a[key] == b[key] and (all(_same_seq(x, y) for x, y in zip(a[key], b[key])) if key == 'values'
+                                                 else (key != 'header_data' or _xnorm(a[key]) == _xnorm(b[key])))):
             continue
         if key == 'values':
-            k = next((i for i, (x, y) in enumerate(zip(a[key], b[key])) if x != y), len(a[key]))
+            k = next((i for i, (x, y) in enumerate(zip(a[key], b[key])) if not _same_seq(x, y)), len(a[key]))
             return 'values[%d]' % k
         if key == 'header':
             # (a latitude / longitude of zero is printed '0' by Location(...) and '0.0' when read from text)
@@ -2831,7 +2981,8 @@ def _view_diff(a, b, skip=()):
                 continue
             return 'header line %d: %s vs %s' % (i, _short(a[key][i]), _short(b[key][i]))
         if isinstance(a[key], dict):
-            k = next((k for k in a[key] if k not in b[key] or a[key][k] != b[key][k]), None)
+            k = next((k for k in a[key] if k not in b[key] or a[key][k] != b[key][k] or
+                      (key == 'header_data' and _xnorm(a[key][k]) != _xnorm(b[key][k]))), None)
             return '%s[%r]: %s vs %s' % (key, k, _short(a[key].get(k)), _short(b[key].get(k)))
         return '%s: %s vs %s' % (key, _short(a[key]), _short(b[key]))
     return None
@@ -3227,6 +3378,7 @@ def _r4_spec(rng, lp, mode, exotic=0, hdr=None, **kw):
         s['nrows'] = rng.choice([8760, 8784])
     if mode != 'ids':
         s['year'] = rng.choice(['2017', '2016', '1988', '1900', '0', '2023'])
+        s['eqv'] = rng.randrange(1000)
     s['header'].update(hdr or {})
     s.update(kw)
     return s
@@ -3339,6 +3491,10 @@ def _oracle_cases(ctx):
             continue                # not a well-formed EPW text (rejected on import: correspondence covers it)
         yield 'roundtrip', {'spec': s}
     yield 'exports', {'spec': specs[1]}
+    canon = [s for s in specs if s['mode'] == 'canon' and s['leap'] in ('Yes', 'No') and 'nrows' not in s
+             and s.get('blank', -1) < 0]
+    if canon:       # (thorough tier / search) the exports of a canonical file whose columns hold 0.0 next to -0.0
+        yield 'exports', {'spec': canon[0]}
     if big:
         for f in SHIPPED[1:]:
             yield 'exports', {'file': f}
@@ -3346,6 +3502,8 @@ def _oracle_cases(ctx):
             s = {'leap': rng.choice(['No', 'Yes']), 'mode': rng.choice(['ids', 'canon', 'noncanon']),
                  'seed': rng.randrange(10 ** 6)}
             s['header'] = rand_header_opts(random.Random(s['seed']), leap_tok=s['leap'])
+            if s['mode'] != 'ids':
+                s['eqv'] = rng.randrange(1000)
             yield 'roundtrip', {'spec': s}
     yield 'history', {'spec': {'leap': 'No', 'mode': 'ids', 'seed': 1},
                       'ops': ['H', 'W', 'E', 'M', 'D', 'I', 'W', 'F6', 'B', 'E', 'S', 'W']}
@@ -3353,7 +3511,8 @@ def _oracle_cases(ctx):
         yield 'history', {'spec': 'los_angeles_no_leap_field.epw', 'ops': ['H', 'W', 'I', 'B', 'F14', 'W']}
     for _ in range((1 - ctx.seed % 2) if not big else 25):
         lp = rng.choice(['No', 'Yes'])
-        yield 'history', {'spec': {'leap': lp, 'mode': rng.choice(['ids', 'canon']), 'seed': rng.randrange(1000)},
+        yield 'history', {'spec': {'leap': lp, 'mode': rng.choice(['ids', 'canon']), 'seed': rng.randrange(1000),
+                                   'eqv': rng.randrange(1000)},
                           'ops': _rand_hist(rng, 5 if not big else 7)}
 
 
@@ -3434,7 +3593,12 @@ LEVEL_TEXT = ('Machine-checked Lean 4 theorems over an executable model of epw.p
               'into lines at line feeds only, whatever other characters the header holds (C01_lines_split_only_at_newline, '
               'C01_file_sections); to_wea answers each requested hour on its own, so order, repetition and container of the '
               'hours do not matter (C01_wea_hoys_pointwise, C01_wea_all_hours); every depth of the ground-temperature line '
-              'keeps its own soil properties in any spelling of the file (C01_ground_each_depth_own_properties). The field table is regenerated from epw.py on '
+              'keeps its own soil properties in any spelling of the file (C01_ground_each_depth_own_properties). '
+              'Equal values of different text: every written token is str of the value of that very cell (C01_write_cellwise, '
+              'C01_write_cell_own_text); a memoised column is the plain column whenever the memo key is at least as fine as the '
+              'text (C01_memo_write_sound) and Python equality is not such a key - 0.0 == -0.0, 1 == 1.0 - so a write memoised '
+              'by value loses the sign of zero (C01_equal_values_different_text_counterexample, C01_memo_by_equality_counterexample, '
+              'C01_signed_zero_roundtrip). The field table is regenerated from epw.py on '
               'every run and the model is compared with the real class on shipped and synthetic full-size files, '
               'header blocks and operation histories.')
 LEVEL_NOTE = ('Trusted: Lean kernel; axioms propext/Classical.choice/Quot.sound only; the field-table extractor; the '
